@@ -40,6 +40,11 @@
 (*               or dict left it partly converted, and the next member is  *)
 (*               tried on the converted object (Union[List[int],List[str]] *)
 (*               rejects ["1","a"], Union[List[str],List[int]] accepts).   *)
+(*   validateLeak the validation pass works on cfg.clone(), which SHARES    *)
+(*               tuples: what a Union member converts in place below a     *)
+(*               tuple during validation shows in the result, e.g.         *)
+(*               Tuple[Union[List[Tuple[int]],List[Set[int]]],...] given   *)
+(*               [[[1,1]]] returns ([(1,)],) instead of ([{1}],).          *)
 (*   setListing  a set with two or more members is turned into a List or   *)
 (*               Tuple: the order is whatever Python lists the set in, so  *)
 (*               Union[Tuple[int,str],Set[str]] may read its own result    *)
@@ -477,11 +482,17 @@ AlgCheckType(t, x, dflt) ==
 \* validate works on cfg.clone(): _namespace.recreate_branches copies Namespaces, dicts and lists but SHARES tuples
 \* (and what is inside them), so what the validation pass converts in place below a tuple shows in the result.
 \* v: the value before validation; m: the state in which validation left its clone
-RECURSIVE Protect(_, _)
+\* below a shared tuple: the tuple itself and its immutable members cannot change, a list / dict shows whatever was done
+\* to it in place (m is what the clone holds in the same place afterwards -- the same object, or a new one of another kind)
+RECURSIVE SharedMerge(_, _), Protect(_, _)
+SharedMerge(v, m) ==
+  IF v.k = "tuple" /\ m.k \in {"tuple", "list"} /\ Len(m.v) = Len(v.v) THEN TupleV([n \in 1..Len(v.v) |-> SharedMerge(v.v[n], m.v[n])])
+  ELSE IF v.k \in {"list", "dict"} /\ m.k = v.k THEN m
+  ELSE v
 Protect(v, m) ==
   IF v.k = "list" /\ m.k = "list" /\ Len(m.v) = Len(v.v) THEN ListV([n \in 1..Len(v.v) |-> Protect(v.v[n], m.v[n])])
   ELSE IF v.k = "dict" /\ m.k = "dict" /\ Len(m.v) = Len(v.v) THEN DictV([n \in 1..Len(v.v) |-> <<v.v[n][1], Protect(v.v[n][2], m.v[n][2])>>])
-  ELSE IF v.k = "tuple" /\ m.k = "tuple" /\ Len(m.v) = Len(v.v) THEN m
+  ELSE IF v.k = "tuple" THEN SharedMerge(v, m)
   ELSE v
 
 \* One key through parse_object({key: x}) / parse_args(["--key=" + text]):
@@ -497,7 +508,8 @@ AlgParse(t, x, dflt) ==
             IF ~r2.ok THEN Er(r1.dev \cup r2.dev, r1.m)
             ELSE IF r2.v = NoneV THEN Ok(NoneV, r1.dev \cup r2.dev, r1.m)
             ELSE LET r3 == AlgCheckType(t, r2.v, dflt) IN
-                 IF r3.ok THEN Ok(Protect(r2.v, r3.m), r1.dev \cup r2.dev \cup r3.dev, r1.m) ELSE Er(r1.dev \cup r2.dev \cup r3.dev, r1.m)
+                 IF r3.ok THEN Ok(Protect(r2.v, r3.m), r1.dev \cup r2.dev \cup r3.dev \cup (IF Protect(r2.v, r3.m) # r2.v THEN {"validateLeak"} ELSE {}), r1.m)
+                 ELSE Er(r1.dev \cup r2.dev \cup r3.dev, r1.m)
 
 \* adapt_typehints(..., serialize=True) as called by ActionTypeHint.serialize:497-519 (no orig_val): the config
 \* representation that dump writes.
